@@ -54,3 +54,10 @@ Proof. apply (field_spec 63 255 (-18) 16515072); try reflexivity; try lia. Qed.
 Theorem n10_from_spec b k : 0 <= b < LIM -> 1 <= k <= 1023 ->
   (b < Tf 1023 65535 k -> n10_from b <= k - 1) /\ (Tf 1023 65535 k <= b -> k <= n10_from b) /\ Z.abs (Tf 1023 65535 k - ideal_boundary 1023 k) <= 1.
 Proof. apply (field_spec 1023 65535 (-14) 16760832); try reflexivity; try lia. Qed.
+
+(* SNORM8: the level (x.min(1.0) * 254 + 0.5) as integer, stored as (level + 1 - 128) mod 256 *)
+Theorem s8_level_spec b k : 0 <= b < LIM -> 1 <= k <= 254 ->
+  (b < Tf 254 255 k -> Qf 254 255 b <= k - 1) /\ (Tf 254 255 k <= b -> k <= Qf 254 255 b) /\ Z.abs (Tf 254 255 k - ideal_boundary 254 k) <= 1.
+Proof. apply (field_spec 254 255 (-16) 16646144); try reflexivity; try lia. Qed.
+Lemma s8_from_level b : s8_from b = (Qf 254 255 b + 1 - 128) mod 256.
+Proof. reflexivity. Qed.
